@@ -1,5 +1,6 @@
 mod c_eeprom;
 mod c_init;
+mod c_pd;
 mod c_pdu;
 mod c_seq;
 mod checks;
@@ -13,6 +14,7 @@ mod fiber;
 mod hb;
 mod pduscen;
 mod rng;
+mod simlock;
 mod runner;
 mod storage;
 mod tape;
@@ -29,6 +31,8 @@ fn lookup(property: &str, check: &str) -> Option<Box<CaseFn>> {
         ("C12", "eeprom-reads") => Some(Box::new(c_eeprom::c12_case)),
         ("C13", "hostile-eeprom") => Some(Box::new(c_eeprom::c13_case)),
         ("C14", "alias-and-writes") => Some(Box::new(c_eeprom::c14_case)),
+        ("C07", "pd-cycle") => Some(Box::new(c_pd::c07_case)),
+        ("C08", "pd-mapping") => Some(Box::new(c_pd::c08_case)),
         ("C09", "init") => Some(Box::new(c_init::case_clean)),
         ("C09", "init-dev-lag") => Some(Box::new(c_init::case_lag)),
         ("C04", "push-programs") => Some(Box::new(c_seq::c04_case)),
@@ -58,6 +62,7 @@ fn main() {
             c_pdu::run_property(id, tier, seed, workers)
         }
         id @ ("C12" | "C13" | "C14") => c_eeprom::run(id, args.get(2).map(|s| s.as_str()).unwrap_or("quick"), seed, workers),
+        id @ ("C07" | "C08") => c_pd::run(id, args.get(2).map(|s| s.as_str()).unwrap_or("quick"), seed, workers),
         "C09" => c_init::run_c09(args.get(2).map(|s| s.as_str()).unwrap_or("quick"), seed, workers),
         "C04" => c_seq::run_c04(args.get(2).map(|s| s.as_str()).unwrap_or("quick"), seed, workers),
         "C05" => c_seq::run_c05(args.get(2).map(|s| s.as_str()).unwrap_or("quick"), seed, workers),
